@@ -147,7 +147,9 @@ class _Walker:
             out.append('}')
             return
         if isinstance(o, enum.Enum):
-            out.append('E' + fnum(o.value))
+            # IntEnum priorities compare equal to plain numbers everywhere in the library: same token
+            v = o.value
+            out.append(('N' + repr(float(v))) if isinstance(v, (int, float)) else ('E' + repr(v)))
             return
         if isinstance(o, (int, float)):      # numpy scalars, subclasses
             out.append('N' + repr(float(o)))
